@@ -3,15 +3,23 @@
 // c12drv explores request histories of the real VarPool breadth-first (explicit-state search with
 // deduplication on the allocator state) and checks on every transition that a generated name is
 // fresh. It lives inside the kessoku module only through a build overlay.
+//
+// The driver uses nothing but the allocator's request API (NewVarPool, GetName, Get, GetChannel): a
+// state is reached by replaying its history on a fresh pool, and the allocator state that enters the
+// deduplication key is a deep reflective dump of whatever the pool contains. The oracle's notion of
+// "reserved" comes from go/token and go/types, not from the repository's own tables.
 package main
 
 import (
+	"crypto/sha256"
+	"encoding/hex"
 	"encoding/json"
 	"flag"
 	"fmt"
 	"go/token"
 	"go/types"
 	"os"
+	"reflect"
 	"sort"
 	"strings"
 
@@ -24,13 +32,6 @@ type op struct {
 }
 
 func (o op) String() string { return o.Kind + "(" + o.Arg + ")" }
-
-type state struct {
-	pool       *kessoku.VarPool
-	issued     map[string]bool
-	registered map[string]bool
-	hist       []op
-}
 
 var pkg = types.NewPackage("example.com/p", "p")
 
@@ -55,26 +56,67 @@ func namedType(spec string) types.Type {
 	return t
 }
 
-func canon(s *state, base map[string]int) string {
-	snap := s.pool.VerifSnapshot()
-	var parts []string
-	for k, v := range snap {
-		if base[k] != v {
-			parts = append(parts, fmt.Sprintf("%s=%d", k, v))
+// deepDump renders every field reachable from v (unexported ones included), maps in key order, pointers followed.
+func deepDump(b *strings.Builder, v reflect.Value, depth int) {
+	if depth > 8 {
+		b.WriteString("<deep>")
+		return
+	}
+	switch v.Kind() {
+	case reflect.Ptr, reflect.Interface:
+		if v.IsNil() {
+			b.WriteString("nil")
+			return
 		}
+		b.WriteString("&")
+		deepDump(b, v.Elem(), depth+1)
+	case reflect.Struct:
+		b.WriteString("{")
+		for i := 0; i < v.NumField(); i++ {
+			b.WriteString(v.Type().Field(i).Name + ":")
+			deepDump(b, v.Field(i), depth+1)
+			b.WriteString(";")
+		}
+		b.WriteString("}")
+	case reflect.Map:
+		type kv struct{ k, v string }
+		var kvs []kv
+		it := v.MapRange()
+		for it.Next() {
+			var kb, vb strings.Builder
+			deepDump(&kb, it.Key(), depth+1)
+			deepDump(&vb, it.Value(), depth+1)
+			kvs = append(kvs, kv{kb.String(), vb.String()})
+		}
+		sort.Slice(kvs, func(i, j int) bool { return kvs[i].k < kvs[j].k })
+		b.WriteString("map[")
+		for _, e := range kvs {
+			b.WriteString(e.k + "=" + e.v + ",")
+		}
+		b.WriteString("]")
+	case reflect.Slice, reflect.Array:
+		b.WriteString("[")
+		for i := 0; i < v.Len(); i++ {
+			deepDump(b, v.Index(i), depth+1)
+			b.WriteString(",")
+		}
+		b.WriteString("]")
+	case reflect.String:
+		fmt.Fprintf(b, "%q", v.String())
+	case reflect.Int, reflect.Int8, reflect.Int16, reflect.Int32, reflect.Int64:
+		fmt.Fprintf(b, "%d", v.Int())
+	case reflect.Uint, reflect.Uint8, reflect.Uint16, reflect.Uint32, reflect.Uint64, reflect.Uintptr:
+		fmt.Fprintf(b, "%d", v.Uint())
+	case reflect.Bool:
+		fmt.Fprintf(b, "%t", v.Bool())
+	default:
+		// funcs, chans, unsafe pointers: identity is not observable here; make the state unique so that it is never merged
+		uniq++
+		fmt.Fprintf(b, "<%s#%d>", v.Kind(), uniq)
 	}
-	sort.Strings(parts)
-	var is, rs []string
-	for k := range s.issued {
-		is = append(is, k)
-	}
-	for k := range s.registered {
-		rs = append(rs, k)
-	}
-	sort.Strings(is)
-	sort.Strings(rs)
-	return strings.Join(parts, ",") + "|" + strings.Join(is, ",") + "|" + strings.Join(rs, ",")
 }
+
+var uniq int
 
 type violation struct {
 	History []string `json:"history"`
@@ -83,23 +125,84 @@ type violation struct {
 	Shape   string   `json:"shape"`
 }
 
-func main() {
-	depth := flag.Int("depth", 4, "history depth")
-	alpha := flag.String("alphabet", "full", "full | foo")
-	flag.Parse()
-	pre, kw := kessoku.VerifReserved()
-	reserved := map[string]string{}
-	for _, k := range pre {
-		reserved[k] = "predeclared identifier"
+func reservedWhy(name string) string {
+	if token.IsKeyword(name) {
+		return "keyword"
 	}
-	for _, k := range kw {
-		reserved[k] = "keyword"
+	if types.Universe.Lookup(name) != nil {
+		return "predeclared identifier"
 	}
-	bases := []string{"foo", "foo0", "foo1", "fooCh", "fooCh0", "err", "err0", "ctx", "eg", "len", "len0", "type", "string"}
-	tys := []string{"Foo", "*Foo", "Foo0", "FooCh", "Err", "Context", "int", "string"}
-	if *alpha == "foo" {
+	return ""
+}
+
+type world struct {
+	pool       *kessoku.VarPool
+	issued     map[string]bool
+	registered map[string]bool
+}
+
+func newWorld() *world {
+	return &world{pool: kessoku.NewVarPool(), issued: map[string]bool{}, registered: map[string]bool{}}
+}
+
+// apply performs one request on the real allocator and returns the freshness verdict ("" = fresh).
+func (w *world) apply(o op) (name, why string) {
+	switch o.Kind {
+	case "reg":
+		_ = w.pool.GetName(o.Arg) // what ParseFile does for package-level names: result discarded
+		w.registered[o.Arg] = true
+		return "", ""
+	case "gen":
+		name = w.pool.GetName(o.Arg)
+	case "gentype":
+		name = w.pool.Get(namedType(o.Arg))
+	case "genchan":
+		name = w.pool.GetChannel(namedType(o.Arg))
+	}
+	switch {
+	case reservedWhy(name) != "":
+		why = "is a Go " + reservedWhy(name)
+	case name == "" || name == "_" || !token.IsIdentifier(name):
+		why = "is not a usable Go identifier"
+	case w.registered[name]:
+		why = "is already declared at package level in the user's package"
+	case w.issued[name]:
+		why = "was already handed out earlier in this invocation"
+	}
+	w.issued[name] = true
+	return name, why
+}
+
+func (w *world) key() string {
+	var b strings.Builder
+	deepDump(&b, reflect.ValueOf(w.pool), 0)
+	var is, rs []string
+	for k := range w.issued {
+		is = append(is, k)
+	}
+	for k := range w.registered {
+		rs = append(rs, k)
+	}
+	sort.Strings(is)
+	sort.Strings(rs)
+	b.WriteString("|" + strings.Join(is, ",") + "|" + strings.Join(rs, ","))
+	h := sha256.Sum256([]byte(b.String()))
+	return hex.EncodeToString(h[:12])
+}
+
+func alphabet(name string) []op {
+	var bases, tys []string
+	switch name {
+	case "foo":
 		bases = []string{"foo", "foo0", "foo1", "foo00", "fooCh", "fooCh0"}
 		tys = []string{"Foo", "Foo0", "FooCh"}
+	case "num":
+		// bases whose suffixed forms are predeclared identifiers (int8, uint16, float32, complex64 ...)
+		bases = []string{"int", "uint", "float", "complex", "int8", "int0", "uint8"}
+		tys = []string{"Int", "*Int", "Uint", "Float", "Complex", "Int0"}
+	default:
+		bases = []string{"foo", "foo0", "foo1", "fooCh", "fooCh0", "err", "err0", "ctx", "eg", "len", "len0", "type", "string"}
+		tys = []string{"Foo", "*Foo", "Foo0", "FooCh", "Err", "Context", "int", "string"}
 	}
 	var ops []op
 	for _, b := range bases {
@@ -111,74 +214,90 @@ func main() {
 	for _, t := range tys {
 		ops = append(ops, op{"gentype", t}, op{"genchan", t})
 	}
-	init := &state{pool: kessoku.NewVarPool(), issued: map[string]bool{}, registered: map[string]bool{}}
-	base := init.pool.VerifSnapshot()
-	seen := map[string]bool{canon(init, base): true}
-	frontier := []*state{init}
-	states, transitions := 1, 0
+	return ops
+}
+
+func main() {
+	depth := flag.Int("depth", 4, "history depth of the breadth-first search")
+	alpha := flag.String("alphabet", "full", "full | foo | num")
+	chain := flag.Int("chain", 0, "additionally: for every operation o of the alphabet and every prefix operation p (or none), the history p, o^k for k up to this length")
+	flag.Parse()
+	ops := alphabet(*alpha)
 	var viols []violation
 	violSeen := map[string]bool{}
+	note := func(hist []op, name, why string) {
+		shape := shapeOf(hist, name)
+		key := shape + "|" + why
+		if violSeen[key] {
+			return
+		}
+		violSeen[key] = true
+		var hs []string
+		for _, h := range hist {
+			hs = append(hs, h.String())
+		}
+		if len(hs) > 24 {
+			// long chains: keep the ends, say how many were elided
+			hs = append(append(append([]string{}, hs[:4]...), fmt.Sprintf("... (%d more requests) ...", len(hs)-8)), hs[len(hs)-4:]...)
+		}
+		viols = append(viols, violation{History: hs, Name: name, Why: why, Shape: shape})
+	}
+	replay := func(hist []op) *world {
+		w := newWorld()
+		for _, o := range hist {
+			w.apply(o)
+		}
+		return w
+	}
+	seen := map[string]bool{newWorld().key(): true}
+	frontier := [][]op{nil}
+	states, transitions := 1, 0
 	for d := 0; d < *depth; d++ {
-		var next []*state
-		for _, s := range frontier {
+		var next [][]op
+		for _, hist := range frontier {
 			for _, o := range ops {
 				transitions++
-				n := &state{pool: s.pool.VerifClone(), issued: map[string]bool{}, registered: map[string]bool{}}
-				for k := range s.issued {
-					n.issued[k] = true
+				w := replay(hist)
+				name, why := w.apply(o)
+				nh := append(append([]op(nil), hist...), o)
+				if why != "" {
+					note(nh, name, why)
 				}
-				for k := range s.registered {
-					n.registered[k] = true
-				}
-				n.hist = append(append([]op(nil), s.hist...), o)
-				var name string
-				switch o.Kind {
-				case "reg":
-					_ = n.pool.GetName(o.Arg) // what ParseFile does for package-level names: result discarded
-					n.registered[o.Arg] = true
-				case "gen":
-					name = n.pool.GetName(o.Arg)
-				case "gentype":
-					name = n.pool.Get(namedType(o.Arg))
-				case "genchan":
-					name = n.pool.GetChannel(namedType(o.Arg))
-				}
-				if o.Kind != "reg" {
-					why := ""
-					switch {
-					case reserved[name] != "":
-						why = "is a Go " + reserved[name]
-					case n.registered[name]:
-						why = "is already declared at package level in the user's package"
-					case n.issued[name]:
-						why = "was already handed out earlier in this invocation"
-					}
-					if why != "" {
-						var hs []string
-						for _, h := range n.hist {
-							hs = append(hs, h.String())
-						}
-						// shape: kinds of the requests that involve the colliding name's base
-						shape := shapeOf(n.hist, name)
-						key := shape + "|" + why
-						if !violSeen[key] {
-							violSeen[key] = true
-							viols = append(viols, violation{History: hs, Name: name, Why: why, Shape: shape})
-						}
-					}
-					n.issued[name] = true
-				}
-				k := canon(n, base)
-				if !seen[k] {
+				if k := w.key(); !seen[k] {
 					seen[k] = true
 					states++
-					next = append(next, n)
+					next = append(next, nh)
 				}
 			}
 		}
 		frontier = next
 	}
-	out := map[string]any{"states": states, "transitions": transitions, "depth": *depth, "alphabet": len(ops), "violations": viols, "ops": fmt.Sprint(ops)}
+	chainTransitions := 0
+	if *chain > 0 {
+		prefixes := append([]op{{}}, ops...)
+		for _, p := range prefixes {
+			for _, o := range ops {
+				if o.Kind == "reg" {
+					continue
+				}
+				w := newWorld()
+				var hist []op
+				if p.Kind != "" {
+					w.apply(p)
+					hist = append(hist, p)
+				}
+				for k := 0; k < *chain; k++ {
+					chainTransitions++
+					name, why := w.apply(o)
+					hist = append(hist, o)
+					if why != "" {
+						note(hist, name, why)
+					}
+				}
+			}
+		}
+	}
+	out := map[string]any{"states": states, "transitions": transitions + chainTransitions, "chain_transitions": chainTransitions, "chain": *chain, "depth": *depth, "alphabet": len(ops), "violations": viols, "ops": fmt.Sprint(ops)}
 	b, _ := json.Marshal(out)
 	os.Stdout.Write(b)
 }
@@ -186,6 +305,20 @@ func main() {
 // shapeOf abstracts a history to the mechanism: which kinds of requests produced the colliding name.
 func shapeOf(h []op, name string) string {
 	var parts []string
+	last := ""
+	rep := 0
+	flush := func() {
+		if last == "" {
+			return
+		}
+		if rep > 3 {
+			parts = append(parts, last+"*")
+		} else {
+			for i := 0; i < rep; i++ {
+				parts = append(parts, last)
+			}
+		}
+	}
 	for _, o := range h {
 		arg := o.Arg
 		switch o.Kind {
@@ -211,8 +344,15 @@ func shapeOf(h []op, name string) string {
 		if o.Kind == "reg" {
 			k = "reg"
 		}
-		parts = append(parts, k+"("+rel+")")
+		cur := k + "(" + rel + ")"
+		if cur == last {
+			rep++
+			continue
+		}
+		flush()
+		last, rep = cur, 1
 	}
+	flush()
 	return strings.Join(parts, ",")
 }
 
